@@ -375,9 +375,9 @@ func bessel_ik_log(v, x float64, kind int) (float64, float64) {
   // x is positive until reflection
   W = -math.Log(x)                           // Wronskian
   if x <= 2 {                                // x in (0, 2]
-    Ku, Ku1 = temme_ik(u, x)                 // Temme series
+    Ku, Ku1 = temme_ik_sums(u, x)            // Temme series
     Ku      = math.Log(Ku)
-    Ku1     = math.Log(Ku1)
+    Ku1     = math.Log(2.0*Ku1) - math.Log(x)  // K(u+1, x) = 2 sum1 / x may overflow
   } else {                                   // x in (2, \infty)
     Ku, Ku1 = CF2_ik_log(u, x)               // continued fraction CF2_ik
   }
